@@ -483,3 +483,52 @@ func H_C02_endtoend_cancel() {
 		vCover("C02 end to end: cancelled")
 	}
 }
+
+// H_C04_chain: an interrupted run followed by a resumed one, both with the real sender and the real
+// receiver. In run 1 the connection is lost at the n-th write of the data stream or of the control
+// stream (either direction); whatever that leaves in the output directory - partial file, resume
+// metadata or none - is what run 2 (new connection, same directories, resume on) starts from. Run 2
+// must succeed on both sides and leave the file identical to the source.
+func H_C04_chain()      { vC04Chain([]int{5}, 12) }
+func H_C04_chain_deep() { vC04Chain([]int{5, 9}, 24) }
+
+func vC04Chain(sizes []int, cuts int) {
+	size := sizes[vChoice("sizeIdx", len(sizes))]
+	src := vBytes("src", size)
+	dir := vTempDir()
+	out := dir + "/out"
+	vTempFile("src/f", src)
+	item := manifest.FileItem{RelPath: "f", Size: int64(size), ID: "idf"}
+	m := manifest.Manifest{Root: "src", Items: []manifest.FileItem{item}, TotalBytes: int64(size), FileCount: 1}
+	run := func(cutPipe, cutWrite int) (error, error) {
+		a, b := vNewPipeConns()
+		a.link.cutPipe, a.link.cutWrite = cutPipe, cutWrite
+		var sendErr error
+		done := make(chan struct{})
+		go func() {
+			sendErr = SendManifestMultiStream(vContext("sctx", false), a, dir+"/src", m, Options{ChunkSize: 4, ParallelFiles: 1, Resume: true})
+			if sendErr != nil {
+				a.link.lose()
+			}
+			close(done)
+		}()
+		_, recvErr := RecvManifestMultiStream(vContext("rctx", false), b, out, Options{NoRootDir: true, Resume: true})
+		if recvErr != nil {
+			b.link.lose()
+		}
+		<-done
+		return sendErr, recvErr
+	}
+	s1, r1 := run([]int{2, 0, 1}[vChoice("cutStream", 3)], vChoice("cutAtWrite", cuts))
+	if s1 == nil && r1 == nil {
+		vCover("C04 chain: run 1 was not interrupted")
+	} else {
+		vCover("C04 chain: run 1 interrupted")
+	}
+	s2, r2 := run(0, -1)
+	vAssert(r2 == nil, "the resumed run: the receiver reports success")
+	vAssert(s2 == nil, "the resumed run: the sender reports success")
+	got, rerr := os.ReadFile(out + "/f")
+	vAssert(rerr == nil && len(got) == size && vBytesEq(got, src), "after the resumed run the file equals the source")
+	vCover("C04 chain: resumed and identical")
+}
